@@ -420,15 +420,18 @@ func (hubHarness) Run(spec any) (res verifsim.RunResult) {
 			outcome := s.Run(func() bool { return int(done.Load()) == len(sp.Actors) }, time.Now().Add(5*time.Minute), 0)
 			blocked := s.Blocked()
 			// leak check (before the drain changes anything)
-			h.mu.RLock()
-			nSess, nBy := len(h.sessions), len(h.byPeerID)
+			nSess, nBy := 0, 0
 			var leakedConns []string
-			for sid, m := range h.sessions {
-				for cid := range m {
-					leakedConns = append(leakedConns, sid+"/"+cid)
+			lockHeld := !h.mu.TryRLock() // a goroutine blocked for good while holding the hub lock
+			if !lockHeld {
+				nSess, nBy = len(h.sessions), len(h.byPeerID)
+				for sid, m := range h.sessions {
+					for cid := range m {
+						leakedConns = append(leakedConns, sid+"/"+cid)
+					}
 				}
+				h.mu.RUnlock()
 			}
-			h.mu.RUnlock()
 			s.Stop()
 			verifsim.Watch(nil)
 			for _, rec := range allConns {
@@ -440,7 +443,11 @@ func (hubHarness) Run(spec any) (res verifsim.RunResult) {
 			mu.Lock()
 			defer mu.Unlock()
 			if outcome != verifsim.Finished {
-				addV("deadlock", "hub:"+sitesOf(blocked), fmt.Sprintf("outcome=%v blocked=%v", outcome, blocked))
+				sig := "hub:" + sitesOf(blocked)
+				if lockHeld {
+					sig = "hub-lock-held-forever"
+				}
+				addV("deadlock", sig, fmt.Sprintf("outcome=%v after %v simulated; hub lock held by a blocked goroutine=%v; waiting: %v", outcome, s.Since(), lockHeld, blocked))
 			}
 			for _, p := range panics {
 				sig := p
@@ -482,13 +489,14 @@ func (hubHarness) Run(spec any) (res verifsim.RunResult) {
 			res.Counters["ops"] += int64(len(ops))
 			res.Counters["deliveries"] += int64(len(deliveries))
 			// let orphaned writers go so that the bubble can end
-			h.mu.Lock()
-			for _, m := range h.sessions {
-				for _, pc := range m {
-					pc.closeSend()
+			if h.mu.TryLock() {
+				for _, m := range h.sessions {
+					for _, pc := range m {
+						pc.closeSend()
+					}
 				}
+				h.mu.Unlock()
 			}
-			h.mu.Unlock()
 		})
 	}()
 	verifsim.S = nil
